@@ -130,3 +130,68 @@ pub fn case_strategy(prop: &'static str) -> impl Strategy<Value = Case> {
             Case { def, big_cap, nonce, ops }
         })
 }
+
+/// Total decoder of byte strings into cases (for the coverage-guided fuzz target).
+pub fn decode_case(data: &[u8]) -> Case {
+    struct R<'a>(&'a [u8], usize);
+    impl<'a> R<'a> {
+        fn u8(&mut self) -> u8 {
+            let b = self.0.get(self.1).copied().unwrap_or(0);
+            self.1 += 1;
+            b
+        }
+        fn u16(&mut self) -> u16 {
+            (self.u8() as u16) << 8 | self.u8() as u16
+        }
+        fn done(&self) -> bool {
+            self.1 >= self.0.len()
+        }
+    }
+    let mut r = R(data, 0);
+    let def = r.u16();
+    let flags = r.u8();
+    let nonce = (r.u16() as u64) << 16 | r.u16() as u64;
+    let mut ops = vec![Op::New { variant: r.u16(), full: flags & 2 == 0 }];
+    let access = |b: u8| match b % 3 {
+        0 => Access::Get,
+        1 => Access::Set,
+        _ => Access::Mutate,
+    };
+    while !r.done() && ops.len() < 24 {
+        let k = r.u8() % 20;
+        let op = match k {
+            0 | 1 => Op::New { variant: r.u16(), full: r.u8() & 1 == 0 },
+            2 | 3 | 4 => {
+                let b = r.u8();
+                Op::Field { rec: r.u16(), field: r.u16(), access: access(b), place: b >> 2 }
+            }
+            5 => Op::Rebox { rec: r.u16() },
+            6 => Op::Unpack { rec: r.u16() },
+            7 => Op::Drop { rec: r.u16() },
+            8 | 9 => Op::Convert { rec: r.u16(), form: r.u8() % 4 },
+            10 => Op::ConvertChain { rec: r.u16(), forms: r.u16() },
+            11 => Op::ToGroup { rec: r.u16(), group: r.u16() },
+            12 => Op::FromGroup { group: r.u16() },
+            13 => {
+                let b = r.u8();
+                Op::GroupField { group: r.u16(), el: r.u16(), field: r.u16(), access: access(b) }
+            }
+            14 => {
+                let b = r.u8();
+                Op::GroupConvertAll {
+                    group: r.u16(),
+                    form: b % 4,
+                    mask: (r.u16() as u32) << 16 | r.u16() as u32,
+                    fail: if b & 0x80 != 0 { Some(r.u16()) } else { None },
+                }
+            }
+            15 => Op::GroupDrop { group: r.u16() },
+            16 => Op::Clone { rec: r.u16() },
+            17 => Op::CloneFrom { dst: r.u16(), src: r.u16() },
+            18 => Op::CloneFuse { rec: r.u16(), n: 1 + r.u8() % 5 },
+            _ => Op::CloneFromFuse { dst: r.u16(), src: r.u16(), n: 1 + r.u8() % 5 },
+        };
+        ops.push(op);
+    }
+    Case { def, big_cap: flags & 1 == 1, nonce, ops }
+}
